@@ -405,6 +405,30 @@ def sibling_probe(module, cls):
                 out.append(('C02', 'evals.at_most_once[siblings]', 'two functions with their own caches and archives, interleaved: evaluations A %r, B %r' % (na, nb)))
         except Exception as e:      # noqa
             out.append(('C02', 'evals.at_most_once[siblings]', 'two functions with their own caches: %r' % (e,)))
+    # S4: a cached function stacked on another cached function (the inner one carries klepto's own attributes: dump, load, ...)
+    if bounded:
+        try:
+            n4 = []
+
+            def G(x):
+                n4.append(x)
+                return ('G', x)
+            inner = klepto.inf_cache(keymap=km.keymap())(G)
+            co = ka.cache(archive=ka.dict_archive())
+            random.seed(4242)
+            outer = mk(1, co, purge=False)(inner)
+            vals = {}
+            for x in (0, 1, 2, 0, 3):
+                vals[x] = outer(x)
+                lost = [y for y in vals if outer.key(y) not in co and outer.key(y) not in co.archive]
+                if lost:
+                    out.append(('C07', 'evicted_entries_are_archived[siblings]', 'a cached function stacked on another cached function, maxsize 1, archive attached: after the call with %r the results for %r are neither '
+                                'in the outer memory %r nor in its archive %r' % (x, lost, sorted(map(repr, co)), sorted(map(repr, co.archive)))))
+                    break
+            if any(vals[x] != ('G', x) for x in vals):
+                out.append(('C01', 'result.equals_function[siblings]', 'a cached function stacked on another cached function returns %r' % (vals,)))
+        except Exception as e:      # noqa
+            out.append(('C07', 'evicted_entries_are_archived[siblings]', 'a cached function stacked on another: %r' % (e,)))
     return out
 
 
